@@ -283,6 +283,9 @@ class NotOperator():
     def evalExpression(self, env):
         return not self.op.evalExpression(env)
 
+    def evalExpressionToString(self, env):
+        raise ParseError("Bad syntax: operator in string context: " + str(self))
+
 class BinaryBoolOperator():
     __slots__ = ('op', 'left', 'right')
 
@@ -302,6 +305,9 @@ class BinaryBoolOperator():
     def evalExpression(self, env):
         return OPS[self.op](self.left.evalExpression(env),
                             self.right.evalExpression(env))
+
+    def evalExpressionToString(self, env):
+        raise ParseError("Bad syntax: operator in string context: " + str(self))
 
 class StringLiteral():
     __slots__ = ('literal', 'subst')
@@ -372,6 +378,9 @@ class BinaryStrOperator():
     def evalExpression(self, env):
         return OPS[self.op](self.left.evalExpressionToString(env),
                             self.right.evalExpressionToString(env))
+
+    def evalExpressionToString(self, env):
+        raise ParseError("Bad syntax: operator in string context: " + str(self))
 
 class IfExpressionParser:
     __instance = None
